@@ -59,6 +59,11 @@ reference of (j+1,i+1)) -/
 theorem prepare_dense (rows : List Row) (col row : Nat) (hr : 1 ≤ row) (h : Dense rows) :
     Dense (prepareSheetXML rows col row) := dense_prepare rows col row hr h
 
+/-- `GetCellStyle` is a pure getter (since the fix "GetCellStyle and GetCellRichText no longer
+create rows and cells"): it leaves the sheet — grid, merge list, string table — exactly as it was -/
+theorem getStyle_pure (s : Sheet) (c r : Nat) : (step s (.getStyle c r)).1 = s := by
+  simp only [step, getStyle]; split <;> rfl
+
 /-- the index `Row[row-1].C[col-1]` used after `prepareSheetXML(col,row)` exists: the
 unguarded indexing of the setters cannot go out of range for decoded coordinates -/
 theorem prepare_index_valid (rows : List Row) (col row : Nat) (hc : 1 ≤ col) (hr : 1 ≤ row) :
@@ -81,7 +86,7 @@ theorem dense_run (ops : List Op) (n : Nat) : Dense (run { nStyles := n } ops).r
 
 /-- every operation acts on the abstraction like its `Spec` counterpart and answers the
 same: `abs (set s p v) = update (abs s) (anchor p) v`, block style, merge clearing,
-densifying getters and rejected operations included -/
+read-only style getter and rejected operations included -/
 theorem step_refines (s : Sheet) (op : Op) :
     abs (step s op).1 = (Spec.step (abs s) op).1 ∧ (step s op).2 = (Spec.step (abs s) op).2 := by
   cases op with
@@ -120,19 +125,21 @@ theorem step_refines (s : Sheet) (op : Op) :
     simp only [step, Spec.step, getStyle]
     by_cases h0 : c = 0 ∨ r = 0
     · simp [h0]
-    · simp only [h0, if_false]
-      constructor
-      · simp only [abs]; rw [cellAt_prepare]
-      · have h := congrFun (congrFun (cellAt_prepare s.rows c r) c) r
-        simp only [abs]
-        rw [← h]
-        unfold cellAt
-        simp only [h0, if_false]
-        cases (prepareSheetXML s.rows c r)[r - 1]? with
+    · simp only [h0, if_false, true_and]
+      simp only [abs, cellAt, h0, if_false, getCellAt]
+      by_cases hr : r > s.rows.length
+      · have hn : s.rows[r - 1]? = none := List.getElem?_eq_none (by omega)
+        simp [hr, hn]; rfl
+      · simp only [hr, if_false]
+        cases hrd : s.rows[r - 1]? with
         | none => rfl
         | some rd =>
           simp only
-          cases rd.cells[c - 1]? <;> rfl
+          by_cases hc : c > rd.cells.length
+          · have hn : rd.cells[c - 1]? = none := List.getElem?_eq_none (by omega)
+            simp [hc, hn]; rfl
+          · simp only [hc, if_false]
+            cases rd.cells[c - 1]? <;> rfl
   | merge c1 r1 c2 r2 =>
     simp only [step, Spec.step, mergeCell]
     by_cases h0 : c1 = 0 ∨ r1 = 0 ∨ c2 = 0 ∨ r2 = 0
